@@ -321,3 +321,6 @@ func WaitUntil(d time.Duration, cond func() bool) bool {
 		}
 	}
 }
+
+// Hash64s formats an int64 compactly (for case keys).
+func Hash64s(v int64) string { return strconv.FormatInt(v, 36) }
